@@ -107,6 +107,21 @@ void run_case(vf::ctx_t& c)
             }
         }
     }
+    // mode "cheap": only the solvers whose runs cost milliseconds (no gradient sampling, no bundle QPs, no outer loops),
+    // on small problems with small budgets - buys ~10x the runs per solver for defects that show in a few percent of runs
+    const bool cheap = c.args.mode == "cheap";
+    if (cheap && forced.empty())
+    {
+        std::vector<const solver_entry_t*> pool;
+        for (const auto& s : solvers)
+        {
+            if (s.weight >= 0.7 && s.id != "linear-penalty" && s.id != "quadratic-penalty" && s.id != "augmented-lagrangian")
+            {
+                pool.push_back(&s);
+            }
+        }
+        entry = pool[static_cast<size_t>(rng.integer(0, static_cast<int64_t>(pool.size()) - 1))];
+    }
     const auto& id     = entry->id;
     auto        solver = make_solver(id);
     if (!solver)
@@ -126,7 +141,7 @@ void run_case(vf::ctx_t& c)
         for (int attempt = 0; attempt < 50 && !function; ++attempt)
         {
             const auto& f = *registered[static_cast<size_t>(rng.integer(0, static_cast<int64_t>(registered.size()) - 1))];
-            if (f.size() <= entry->max_dims)
+            if (f.size() <= (cheap ? 8 : entry->max_dims))
             {
                 function = f.clone();
                 fname    = f.name();
@@ -138,14 +153,14 @@ void run_case(vf::ctx_t& c)
         using K            = harness_function_t::kind;
         const auto kinds   = std::vector<K>{K::quadratic, K::logquadratic, K::maxaffine, K::l1, K::linf, K::l1quad, K::linfquad, K::walled, K::nanwalled};
         const auto k       = rng.pick(kinds);
-        const auto n       = static_cast<int>(rng.integer(1, std::min(entry->max_dims, 16)));
+        const auto n       = static_cast<int>(rng.integer(1, cheap ? 8 : std::min(entry->max_dims, 16)));
         function           = std::make_unique<harness_function_t>(k, n, rng);
         fname              = std::string("harness:") + kind_name(k) + "[" + std::to_string(n) + "D]";
     }
     const auto n = function->size();
 
     // settings
-    const auto max_evals = rng.chance(0.1) ? 10 : rng.integer(10, 5000);
+    const auto max_evals = rng.chance(0.1) ? 10 : rng.integer(10, cheap ? 700 : 5000);
     const auto epsilon   = rng.loguniform(1e-12, 1e-2);
     solver->parameter("solver::epsilon")   = epsilon;
     solver->parameter("solver::max_evals") = max_evals;
@@ -290,7 +305,15 @@ void run_case(vf::ctx_t& c)
             c.violation("C02|non-finite-result|" + id, witness(&state));
         }
         const bool in_class = line_search ? function->smooth() : (id == "rqb" ? function->convex() : true);
-        if (in_class && std::fabs(f0) < 1e8 && g0.lpNorm<Eigen::Infinity>() < 1e8)
+        // like the budget clause, the monotonicity clause is judged with the line-search objects in their default
+        // configuration (any lsearch0 x lsearchk pairing): the 5e-4 allowance of the statement is CG_DESCENT's with its
+        // default epsilon, and e.g. `lsearchk::max_iterations = 1` or `cgdescent::epsilon = 8e4` are outside C02's
+        // quantifier (solver-specific parameters); those runs are still judged on every other clause
+        if (lsearch_fuzzed)
+        {
+            c.count("monotone_clause_skipped_fuzzed_linesearch");
+        }
+        else if (in_class && std::fabs(f0) < 1e8 && g0.lpNorm<Eigen::Infinity>() < 1e8)
         {
             const bool cg    = (line_search && solver->lsearchk().type_id() == "cgdescent") || constrained;
             const auto allow = cg ? 5e-4 * (1 + std::fabs(f0)) : 0.0;
